@@ -305,6 +305,19 @@ def run_check(mod, tier, seed, replay=None):
         for r in required:
             if r not in have:
                 proof_problems.append({"kind": "missing-theorem", "theorem": r})
+    leanchecker = None
+    if ok and tier == "thorough":
+        # independent re-check of the compiled .olean files of the property's modules
+        try:
+            r = subprocess.run(
+                ["lake", "env", "leanchecker", *[m for _, m in mod.AUDIT]],
+                cwd=LEAN, capture_output=True, text=True, timeout=1800,
+            )
+            leanchecker = r.returncode
+            if r.returncode != 0:
+                proof_problems.append({"kind": "leanchecker-failed", "detail": (r.stdout + r.stderr)[-1500:]})
+        except subprocess.TimeoutExpired:
+            leanchecker = "timeout"
     sources = []
     for _, module in mod.AUDIT:
         for f in imported_sources(module):
@@ -464,6 +477,7 @@ def run_check(mod, tier, seed, replay=None):
             "trusted_base": TRUSTED_BASE + list(getattr(mod, "TRUSTED_EXTRA", [])),
             "theorems": [t["name"] for t in theorems],
             "proof_problems": proof_problems,
+            "leanchecker_rc": leanchecker,
             "evaluations": len(cases) + extra_evals,
             "extra": extra_info,
             "distinct_nontrivial": len(nontrivial),
